@@ -4,10 +4,13 @@ package main
 
 import (
 	"bytes"
+	"errors"
 	"fmt"
 	"io"
 	"iter"
 	"math/rand/v2"
+	"os"
+	"syscall"
 
 	"github.com/fluhus/biostuff/formats/bed"
 	"github.com/fluhus/biostuff/formats/fasta"
@@ -23,6 +26,7 @@ func init() {
 		Rule: "read side: for each of the six iterators and each well-formed input x, a reader that delivers exactly k bytes and then fails with a non-EOF error, for EVERY k in 0..len(x), in four behaviours " +
 			"(fail once then EOF / fail forever, x delivery in one piece / byte-wise / error returned together with the last bytes); the consumer never stops; " +
 			"write side: for each record type and each generated record with output length L, a writer that accepts exactly k bytes and then fails, for EVERY k in 0..L-1, plus the unlimited writer; " +
+			"eight error values per reader incl. ones wrapping / imitating io.EOF; " +
 			"non-trivial = a fault run whose offset falls strictly inside the input (0<k<len) or any failing-writer run; distinct by hash of (format, input, k, behaviour)",
 		Assumptions: []string{"inputs are well-formed (fault-free decode has no error item)", "the injected error is a plain non-EOF error value; read budget len(x)+10000 calls decides 'spins forever' on logical steps",
 			"thorough tier: the same fault below File() via strace -e inject=read:error=EIO on the N-th read of the scratch file; skipped (recorded) if strace cannot attach"},
@@ -42,7 +46,31 @@ type faultMode struct {
 }
 
 // faultErrors are the non-EOF error values a failing reader returns.
-var faultErrors = []error{errInjected, io.ErrUnexpectedEOF, io.ErrClosedPipe, io.ErrNoProgress}
+// Among them errors that merely LOOK like io.EOF — one that wraps it, one whose
+// Is method answers true for it, one with the same text: none of them is the
+// io.EOF value, so none of them is a clean end of data.
+var faultErrors = []error{errInjected, io.ErrUnexpectedEOF, io.ErrClosedPipe, io.ErrNoProgress,
+	fmt.Errorf("read tcp 10.0.0.1:443: connection closed by peer: %w", io.EOF), eofLike{}, errors.New("EOF"),
+	&os.PathError{Op: "read", Path: "/dev/stdin", Err: syscall.EIO}}
+
+type eofLike struct{}
+
+func (eofLike) Error() string        { return "stream reset" }
+func (eofLike) Is(target error) bool { return target == io.EOF }
+
+func (m faultMode) index() int {
+	i := 0
+	if m.forever {
+		i |= 1
+	}
+	if m.bytewise {
+		i |= 2
+	}
+	if m.withData {
+		i |= 4
+	}
+	return i
+}
 
 func (m faultMode) String() string {
 	return fmt.Sprintf("forever=%v bytewise=%v errorWithLastBytes=%v", m.forever, m.bytewise, m.withData)
@@ -54,7 +82,7 @@ var faultModes = []faultMode{{false, false, false}, {true, false, false}, {false
 // C07 monitor. Returns false after a violation.
 func faultRun(k *K, cd *codec, x []byte, ref []item, kk int, m faultMode) bool {
 	fr := &faultReader{data: x, k: kk, bytewise: m.bytewise, forever: m.forever, withData: m.withData && kk > 0, budget: len(x) + 10000,
-		err: faultErrors[(kk+len(x))%len(faultErrors)]}
+		err: faultErrors[(kk+len(x)+3*m.index())%len(faultErrors)]}
 	limit := 2*len(x) + 16
 	var got []item
 	over := false
